@@ -11,3 +11,10 @@ CHECKS = {
         technique='TLA+ spec + TLC exhaustive model checking; TLC-graph transition-cover replay and TLC trace validation',
         design='5.6 C34'),
 }
+
+# components contributed as checks/reg_<ID>.json
+import glob as _glob, json as _json, os as _os
+for _f in sorted(_glob.glob(_os.path.join(_os.path.dirname(_os.path.abspath(__file__)), 'reg_*.json'))):
+    _id = _os.path.basename(_f)[4:-5]
+    if _os.path.exists(_os.path.join(_os.path.dirname(_f), _id + '.py')):
+        CHECKS[_id] = _json.load(open(_f))
